@@ -13,6 +13,8 @@ import FqModel.C01Spec
   term (prefix):  B <hex> <nBits|-1> | S <off> <n> T | M <k> T×k | Z <n> | L <n> T | I U | O (F <hex> | G <size> <seed>)
                   U: R <hex> | F <hex> | G <size> <seed> | A <minRead> U | P <precision> <total> U | C U | Y T | y T
   term W <k> <op,args>×k T : the reader T after k operations (commas instead of blanks), handed to the enclosing constructor in that state
+  #k <op> : the operation on member k of the family {0 = original, 1, 2 … = its clones in creation order}; `#k cl` adds a clone of member k,
+            an unprefixed `cl` adds a clone of the current member and continues on it; every member has its own cursor
   op:  ra n off | rd n | sk off s|c|e | cl | rf n | raf n off | ird n | isk off s|c|e | @i.j.k <op> (the same on the sub-reader at that child path: an aliased part)
   obs: `<n> <hex|-> <ok|eof|off|neg|ueof|oth>` | `panic` | `hang`
        (bit reads: hex of the n bits, last byte zero padded; seeks: n = position; rf/raf: n = returned value,
@@ -35,6 +37,7 @@ inductive DOp
   | ra (n : Nat) (off : Int) | rd (n : Nat) | sk (off : Int) (w : Whence) | cl
   | rf (n : Nat) | raf (n : Nat) (off : Int) | ird (n : Nat) | isk (off : Int) (w : Whence)
   | at (path : List Nat) (op : DOp)   -- the same operation on the sub-reader at `path` (an aliased part)
+  | on (k : Nat) (op : DOp)           -- the operation on member k of the family {original, clones…}
 deriving Repr, Inhabited
 
 def parseWhence : String → Option Whence
@@ -56,7 +59,19 @@ def parseOp1 (ws : List String) : Option DOp :=
 def parseOpWords (ws : List String) : Option DOp :=
   match ws with
   | w :: rest =>
-    if w.startsWith "@" then do
+    if w.startsWith "#" then do
+      let k ← (w.drop 1).toString.toNat?
+      match rest with
+      | r1 :: _ => if r1.startsWith "#" then none else pure ()
+      | [] => none
+      let op ← (if (rest.head?.getD "").startsWith "@" then do
+          let path ← (((rest.head?.getD "").drop 1).toString.splitOn ".").mapM (·.toNat?)
+          match ← parseOp1 (rest.drop 1) with
+          | .cl => none
+          | op => pure (DOp.at path op)
+        else parseOp1 rest)
+      pure (.on k op)
+    else if w.startsWith "@" then do
       let path ← ((w.drop 1).toString.splitOn ".").mapM (·.toNat?)
       match ← parseOp1 rest with
       | .cl => none
@@ -70,6 +85,7 @@ def parseOp (s : String) : Option DOp := parseOpWords (words s)
 def isBitOp : DOp → Bool
   | .ird _ | .isk _ _ => false
   | .at _ op => isBitOp op
+  | .on _ op => isBitOp op
   | _ => true
 
 def modelOp (s : Rd) (op : DOp) : Out :=
@@ -94,6 +110,7 @@ def modelOp (s : Rd) (op : DOp) : Out :=
     | .raf n off => readFullLoop (fun s n o => stepAt depthFuel path s (.readAt n o)) n off (n + 2) s
         (List.replicate (bitsByteCount n) 0) 0 0
     | _ => .unsupported "clone of a part"
+  | .on _ _ => .unsupported "family op"
 
 
 abbrev Marks := List (List Nat × Nat)
@@ -214,20 +231,38 @@ def resObs (op : DOp) (r : Res) : Obs :=
   match op with
   | .ird _ | .at _ (.ird _) => .res r.n r.bytes (errStr r.err)
   | .isk _ _ | .sk _ _ | .cl | .at _ (.isk _ _) | .at _ (.sk _ _) => .res r.n [] (errStr r.err)
+  | .on _ op => match op with
+    | .ird _ | .at _ (.ird _) => .res r.n r.bytes (errStr r.err)
+    | .isk _ _ | .sk _ _ | .cl | .at _ (.isk _ _) | .at _ (.sk _ _) => .res r.n [] (errStr r.err)
+    | _ => .res r.n (packR r.bits) (errStr r.err)
   | _ => .res r.n (packR r.bits) (errStr r.err)
 
-/-- model observations, quirk flags accumulated up to and including each op, fault message -/
-def runModel : Rd → List DOp → Nat → List (Obs × Nat × String) × Option String
-  | _, [], _ => ([], none)
-  | s, op :: ops, q =>
-    match modelOp s op with
-    | .ok (s', r) =>
-      let q := q ||| r.q
-      let (rest, bad) := runModel s' ops q
-      ((resObs op r, q, "") :: rest, bad)
-    | .fault why => ([(.panic, q, why)], none)
-    | .hang => ([(.hang, q, "")], none)
-    | .unsupported why => ([], some why)
+/-- the member of the family an op addresses (`#k op`: member k; otherwise the current one) and the plain op -/
+def target (cur : Nat) : DOp → Nat × DOp
+  | .on k op => (k, op)
+  | op => (cur, op)
+
+/-- model observations, quirk flags accumulated up to and including each op, fault message.
+    State: the family of cursors (original + clones, `adopt` propagates what an op did to the shared part) and the
+    index of the current member (an unprefixed `cl` continues on the clone, as before). -/
+def runModel : List Rd → Nat → List DOp → Nat → List (Obs × Nat × String) × Option String
+  | _, _, [], _ => ([], none)
+  | cs, cur, op0 :: ops, q =>
+    let (k, op) := target cur op0
+    match cs[k]? with
+    | none => ([], some "no such cursor")
+    | some s =>
+      match modelOp s op with
+      | .ok (s', r) =>
+        let q := q ||| r.q
+        let isCl := match op with | .cl => true | _ => false
+        let cs' := if isCl then cs ++ [s'] else (cs.set k s').mapIdx (fun j c => if j = k then c else adopt s' c)
+        let cur' := match op0 with | .cl => cs.length | _ => cur
+        let (rest, bad) := runModel cs' cur' ops q
+        ((resObs op r, q, "") :: rest, bad)
+      | .fault why => ([(.panic, q, why)], none)
+      | .hang => ([(.hang, q, "")], none)
+      | .unsupported why => ([], some why)
 
 /-! ### the property predicate: a cursor over the denoted bit string -/
 
@@ -395,6 +430,7 @@ def checkOp (c : Cur) (op : DOp) (o : Obs) : PV × Cur :=
       else (.ok, c)
     | .cl => if e == "ok" then (.ok, { c with pos := 0 }) else (.fail "clone failed", c)
     | .at _ _ => (.bad "nested path", c)
+    | .on _ _ => (.bad "nested family op", c)
     | .ird n =>
       let pv := checkByteRead c c.pos n k data e
       (pv, { c with pos := c.pos + k })
@@ -428,7 +464,7 @@ def lookupCur (pcs : List (List Nat × Cur)) (path : List Nat) : Option Cur :=
   (pcs.find? (fun x => x.1 == path)).map (·.2)
 
 def histVerdict (s : Rd) (marks : Marks) (ops : List DOp) (impl : List Obs) : String := Id.run do
-  let (model, bad) := runModel s ops 0
+  let (model, bad) := runModel [s] 0 ops 0
   if let some why := bad then return s!"BADOP model: {why}"
   -- correspondence
   let mobs := model.map (·.1)
@@ -465,7 +501,14 @@ def histVerdict (s : Rd) (marks : Marks) (ops : List DOp) (impl : List Obs) : St
   let mut pcs : List (List Nat × Cur) := []
   let mut fail : Option (Nat × String) := none
   let mut idx := 0
-  for (op, o) in ops.zip impl do
+  -- the family {original, clones}: every member has a cursor of its own over the same bits (a clone starts at 0;
+  -- a LimitReader clone keeps the remaining budget); `c` is the cursor of the member the op addresses
+  let mut fam : Array Cur := #[c]
+  let mut curIdx := 0
+  for (op0, o) in ops.zip impl do
+    let (k, op) := target curIdx op0
+    if h : k < fam.size then c := fam[k] else return "BADOP no such cursor"
+    let famBefore := fam.size
     match op with
     | .at path inner =>
       -- an aliased part: its own cursor (where it stood when it was handed to the constructor, then moved only by
@@ -498,6 +541,15 @@ def histVerdict (s : Rd) (marks : Marks) (ops : List DOp) (impl : List Obs) : St
             | .fail why => if fail.isNone then fail := some (idx, s!"part @{path}: {why}")
             | .ok => pure ()
       | none => pure ()   -- below a reader that consumes the part's ReadBits: compared with the model only
+    | .cl =>
+      -- the clone: a new member at position 0; the cloned member is untouched
+      let ok := match o with | .res _ _ e => e == "ok" | _ => false
+      if ok then
+        fam := fam.push { c with pos := 0 }
+        match op0 with
+        | .cl => curIdx := famBefore
+        | _ => pure ()
+      else if fail.isNone then fail := some (idx, "clone failed")
     | _ =>
       if !taintTop then
         let (pv, c') := checkOp c op o
@@ -506,6 +558,9 @@ def histVerdict (s : Rd) (marks : Marks) (ops : List DOp) (impl : List Obs) : St
         | .bad why => return s!"BADOP {why}"
         | .fail why => if fail.isNone then fail := some (idx, why)
         | .ok => pure ()
+    match op with
+    | .cl => pure ()
+    | _ => fam := fam.setIfInBounds k c
     idx := idx + 1
   let last := impl.getLast?
   if impl.length < ops.length && !(last == some .panic || last == some .hang) then
